@@ -410,7 +410,7 @@ def strip_results(op):
     return op.split("->")[0].strip()
 
 
-def shrink(trace_exe, model_exe, line, still_fails=None, budget=400, model_args=""):
+def shrink(trace_exe, model_exe, line, still_fails=None, budget=400, model_args="", seconds=150):
     """Delta-debug the op list of one failing case line.  The harness re-executes a case given
     on a --replay file (observed results are recomputed by the implementation)."""
     head, ops = split_case(line)
@@ -435,17 +435,20 @@ def shrink(trace_exe, model_exe, line, still_fails=None, budget=400, model_args=
         return mism
 
     cur = ops
+    t_end = time.time() + seconds      # wall-clock cap: hanging cases cost one watchdog deadline per attempt
     m0 = fails(cur)
     if not m0:
         return line, None
     n = 2
     steps = 0
-    while len(cur) >= 2 and steps < budget:
+    while len(cur) >= 2 and steps < budget and time.time() < t_end:
         chunk = max(1, len(cur) // n)
         reduced = False
         for i in range(0, len(cur), chunk):
             cand = cur[:i] + cur[i + chunk:]
             steps += 1
+            if time.time() > t_end:
+                break
             if cand and fails(cand):
                 cur = cand
                 n = max(n - 1, 2)
